@@ -70,6 +70,12 @@ Theorem quoted_ident_exact : forall cfg s, ops_ok cfg -> ~ In 0 s -> ~ In 39 s -
   tokenize cfg (quoted_ident s) = [mkTok tIdent s 1].
 Proof. exact quoted_ident_exact_lemma. Qed.
 
+(* ... in particular when the content spells a keyword, a text operator, a number or an operator of the configuration *)
+Theorem quoted_ident_literal : forall ops tops kws cm cf mk letter number s,
+  nonul ops -> ~ In 0 s -> ~ In 39 s ->
+  tokenize (mkCfg ops tops kws cm cf mk letter number) (quoted_ident s) = [mkTok tIdent s 1].
+Proof. exact quoted_ident_literal_lemma. Qed.
+
 Theorem quoted_ident_lexeme : forall cfg lt lb s, ops_ok cfg -> ~ In 0 s -> ~ In 39 s ->
   lexeme_at cfg lt lb (quoted_ident s) (mul_toks lt ++ [(tIdent, s)]) (this_ty cfg tIdent) anything.
 Proof. exact lexeme_quoted. Qed.
@@ -191,6 +197,11 @@ Example itemsE_model : tokenize_fuel (length (layout_text itemsE) + 2) cfgE (lay
           mkTok tString [115; 10] 3].
 Proof. vm_compute. reflexivity. Qed.
 
+(* the keyword of cfgE, quoted: an identifier *)
+Example quoted_keyword_is_identifier :
+  tokenize cfgE (quoted_ident [105; 102]) = [mkTok tIdent [105; 102] 1] /\ tokenize cfgE [105; 102] = [mkTok tKeyWord [105; 102] 1].
+Proof. split; vm_compute; reflexivity. Qed.
+
 (* C04 non-vacuity: replacement rune inside an operator, NUL inside a string (ends it as EOL) and inside a quoted
    identifier (ends it), implicit products in comfort mode, unterminated block comment at the end *)
 Example malformed_input_tokens :
@@ -209,6 +220,7 @@ Print Assumptions lookahead_invisible.
 Print Assumptions string_literal_roundtrip.
 Print Assumptions string_literal_lexeme.
 Print Assumptions quoted_ident_exact.
+Print Assumptions quoted_ident_literal.
 Print Assumptions quoted_ident_lexeme.
 Print Assumptions superscripts.
 Print Assumptions aliases_equal_ascii.
